@@ -428,3 +428,42 @@ Definition exp_best_config (names : list key) (ms : modes) (metric : metric_ref)
            | Some (i, _) => EBest i (strip_st (nth i table []))
            end
   end.
+
+(* ======================================================================== *)
+(* results.csv.zip: DataFrame(self.results).to_csv / pd.read_csv            *)
+(* ======================================================================== *)
+(* Text level kept abstract: [render] writes one cell, [parse] reads one field, [is_na]
+   says which values pandas writes as an empty field (NaN, None).  What is modelled:
+   the columns (union of the row keys in order of first appearance), one line per row
+   in order, a missing / NA cell written as an empty field and read back as "no value". *)
+Section Csv.
+  Context {T : Type} (render : value -> T) (parse : T -> option value) (is_na : value -> bool).
+
+  Definition add_cols (cols : list key) (r : dict) : list key :=
+    fold_left (fun cs kv => if existsb (key_eqb (fst kv)) cs then cs else cs ++ [fst kv]) r cols.
+
+  Definition columns (rows : list dict) : list key := fold_left add_cols rows [].
+
+  (* one cell of the data frame: None = NaN / missing *)
+  Definition frame_cell (r : dict) (c : key) : option value :=
+    match dget c r with
+    | Some v => if is_na v then None else Some v
+    | None => None
+    end.
+
+  Definition csv_line (cols : list key) (r : dict) : list (option T) :=
+    map (fun c => option_map render (frame_cell r c)) cols.
+
+  Definition csv_write (rows : list dict) : list key * list (list (option T)) :=
+    (columns rows, map (csv_line (columns rows)) rows).
+
+  Definition read_field (c : key) (f : option T) : dict :=
+    match f with
+    | Some t => match parse t with Some v => [(c, v)] | None => [] end
+    | None => []
+    end.
+
+  (* rows of the loaded table as dicts without the cells that hold no value *)
+  Definition csv_read (file : list key * list (list (option T))) : list dict :=
+    map (fun line => flat_map (fun cf => read_field (fst cf) (snd cf)) (combine (fst file) line)) (snd file).
+End Csv.
